@@ -47,7 +47,7 @@ HIST = {
                           (4, 2, 'Decl4', 'NoDef', False, 6, False),
                           (5, 1, 'Decl5', 'NoDef', False, 7, False),
                           (4, 2, 'AllIface4', 'NoDef', False, 6, False)],
-    ('C03', 'quick'): [(4, 2, 'AllIface4', 'NoDef', False, 5, False),
+    ('C03', 'quick'): [(4, 2, 'AllIface4', 'NoDef', False, 4, False),
                        (3, 3, 'AllIface3', 'NoDef', True, 5, False)],
     ('C03', 'thorough'): [(4, 3, 'AllIface4', 'NoDef', False, 6, False),
                           (4, 2, 'AllIface4', 'NoDef', True, 6, False),
@@ -59,7 +59,7 @@ HIST = {
                           (3, 2, 'AllIface3', 'Def12', True, 7, True)],
 }
 SIM = {  # (N, MaxB, IsIface, Def, RootExplicit, depth, WithGet, num)
-    'quick': (5, 2, 'Mixed5', 'Def12', False, 15, True, 150),
+    'quick': (5, 2, 'Mixed5', 'Def12', False, 15, True, 400),
     'thorough': (6, 3, 'Mixed6', 'Def12', False, 30, True, 3000),
 }
 
